@@ -281,11 +281,18 @@ def c08_replay(chk, body):
 C18_PINMODES = ["none", "two", "three", "all", "both", "spread", "sel", "nssel"]
 C18_LOAD = {"quick": {"cfg": "ConfigLoadMC_q.cfg", "reps": 20}, "thorough": {"cfg": "ConfigLoadMC_t.cfg", "reps": 60}}
 # reconciler walks: (cfg, rec, pin, quick sample of transitions, idle reconciliations per step)
-C18_RECON = {"quick": [("pool3", "pool", 3, 400, 12), ("pool2", "pool", 2, 250, 12), ("pool0", "pool", 0, 150, 6),
-                       ("config3", "config", 3, 350, 12), ("config0", "config", 0, 500, 6), ("configadv", "config", 0, 300, 12)],
-             "thorough": [("pool3", "pool", 3, None, 25), ("pool2", "pool", 2, None, 25), ("pool0", "pool", 0, None, 10),
-                          ("config3", "config", 3, None, 25), ("config0", "config", 0, None, 10),
-                          ("configadv", "config", 0, None, 25)]}
+C18_RECON = {"quick": [("pool3", "pool", 3, 400, 12, "record"), ("pool2", "pool", 2, 250, 12, "record"),
+                       ("pool0", "pool", 0, 150, 6, "record"),
+                       ("config3", "config", 3, 350, 12, "record"), ("config0", "config", 0, 500, 6, "record"),
+                       ("configadv", "config", 0, 300, 12, "record"),
+                       # the PoolReconciler feeding the REAL consumer (allocator.SetPools + ReprocessAll, as controller.SetPools)
+                       ("pool0", "pool", 0, 150, 4, "allocator"), ("pool3", "pool", 0, 300, 4, "allocator")],
+             "thorough": [("pool3", "pool", 3, None, 25, "record"), ("pool2", "pool", 2, None, 25, "record"),
+                          ("pool0", "pool", 0, None, 10, "record"),
+                          ("config3", "config", 3, None, 25, "record"), ("config0", "config", 0, None, 10, "record"),
+                          ("configadv", "config", 0, None, 25, "record"),
+                          ("pool0", "pool", 0, None, 6, "allocator"), ("pool3", "pool", 0, None, 6, "allocator"),
+                          ("pool3", "pool", 3, None, 6, "allocator")]}
 
 
 def c18_generate_load(chk, cfgfile):
@@ -445,10 +452,10 @@ def c18_run_load(chk):
                                "snap": s["snap"], "objs": s["objs"]})
 
 
-def c18_recon_harness(chk, scen_path, rec, pin, idle, tag):
+def c18_recon_harness(chk, scen_path, rec, pin, idle, tag, consumer="record"):
     obs = os.path.join(chk.work, "c18_obs_%s.ndjson" % tag)
     rc, out = c18_go(chk, "^TestVerifConfigRecon$", {"VERIF_SCENARIOS": scen_path, "VERIF_OBS": obs, "VERIF_REC": rec,
-                                                    "VERIF_PIN": pin, "VERIF_IDLE": idle})
+                                                    "VERIF_PIN": pin, "VERIF_IDLE": idle, "VERIF_CONSUMER": consumer})
     if rc != 0:
         raise vlib.Inconclusive("controllers harness (reconcilers) failed (rc=%s):\n%s" % (rc, out[-3000:]))
     return obs
@@ -457,7 +464,10 @@ def c18_recon_harness(chk, scen_path, rec, pin, idle, tag):
 def c18_rec_signature(name, o, present, pin):
     cause = "idle" if (name == "C18.NoSpuriousReload" and o["idle"]) else "op=%s:%s" % (o["act"]["op"], o["act"].get("o", ""))
     pinned = sum(1 for x in present if x in ("pa", "pb", "pc")[:pin])
-    return "%s|rec=%s|cause=%s|pinned=%d|l2advs=%d" % (name, o["rec"], cause, pinned, sum(1 for x in present if x.startswith("l2")))
+    sig = "%s|rec=%s|cause=%s|pinned=%d|l2advs=%d" % (name, o["rec"], cause, pinned, sum(1 for x in present if x.startswith("l2")))
+    if o.get("consumer", "record") != "record":
+        sig += "|consumer=" + o["consumer"]     # the handler is the real consumer of the configuration
+    return sig
 
 
 def c18_present_after(init, steps):
@@ -472,16 +482,17 @@ def c18_present_after(init, steps):
     return out
 
 
-def c18_run_recon(chk, name, rec, pin, sample, idle):
+def c18_run_recon(chk, name, rec, pin, sample, idle, consumer="record"):
     cfg = "ConfigReconMC_%s.cfg" % name
+    tag = name if consumer == "record" else "%s_pin%d_%s" % (name, pin, consumer)
     edges, inits, res = vlib.generate_edges(chk, "ConfigReconMC", cfg, timeout=900, heap="4g", workers=4)
     init_key = inits[0]
     walks, left = vlib.edge_cover_walks(edges, init_key, max_len=30, seed=chk.seed, sample=sample)
     init_state = json.loads(init_key)
     steps = [[edges[i][1] for i in w] for w in walks]
-    scen = os.path.join(chk.work, "c18_scen_%s.ndjson" % name)
+    scen = os.path.join(chk.work, "c18_scen_%s.ndjson" % tag)
     vlib.write_scenarios(scen, steps, init_state, prefix=name + "-")
-    obs_path = c18_recon_harness(chk, scen, rec, pin, idle, name)
+    obs_path = c18_recon_harness(chk, scen, rec, pin, idle, tag, consumer)
     fails, nlines = c18_judge(chk, obs_path, "w")
     obs = [json.loads(l) for l in open(obs_path)]
     byw = {}
@@ -502,18 +513,18 @@ def c18_run_recon(chk, name, rec, pin, sample, idle):
                                  (name, a, sorted(pres[k]), a["called"], o["calls"]))
                 nontrivial.add(vlib.canon([sorted(pres[k]), a["op"], a.get("o", "")]))
     if drift:
-        print("DRIFT: %d reconciler steps of %s differ from the model's handler prediction; not a verdict" % (drift, name))
+        print("DRIFT: %d reconciler steps of %s differ from the model's handler prediction; not a verdict" % (drift, tag))
     chk.cov["drift"] += drift
     chk.cov["traces_validated_against_impl"] += len(walks)
     chk.cov["evaluations"] += nlines
     chk.cov["distinct_nontrivial"] += len(nontrivial)
     chk.cov["reconciliations"] = chk.cov.get("reconciliations", 0) + nlines * (1 + idle)
-    chk.cov.setdefault("recon", {})[name] = {"edges": len(edges), "walks": len(walks), "steps": sum(map(len, steps)),
+    chk.cov.setdefault("recon", {})[tag] = {"consumer": consumer, "edges": len(edges), "walks": len(walks), "steps": sum(map(len, steps)),
                                              "uncovered": left, "idle_reconciliations_per_step": idle}
-    if walks and not any(isinstance(s, dict) and s.get("kind") == "recon:" + rec for s in chk.cov["samples"]):
-        chk.cov["samples"].append({"kind": "recon:" + rec, "cfg": cfg, "walk": steps[0][:6],
+    if walks and not any(isinstance(s, dict) and s.get("kind") == "recon:%s:%s" % (rec, consumer) for s in chk.cov["samples"]):
+        chk.cov["samples"].append({"kind": "recon:%s:%s" % (rec, consumer), "cfg": cfg, "walk": steps[0][:6],
                                    "observations": byw.get(name + "-0", [])[:4]})
-    vlib.log("  recon %s: %d edges, %d walks, %d steps, %d failing lines" % (name, len(edges), len(walks), nlines, len(fails)))
+    vlib.log("  recon %s: %d edges, %d walks, %d steps, %d failing lines" % (tag, len(edges), len(walks), nlines, len(fails)))
     if not fails:
         return
     first = {}
@@ -531,11 +542,11 @@ def c18_run_recon(chk, name, rec, pin, sample, idle):
     sel = [(sig, x) for sig, lst in sorted(bysig.items()) for x in lst[:4]]
     confirmed = set()
     for attempt in range(5):
-        scen2 = os.path.join(chk.work, "c18_scen_%s_confirm.ndjson" % name)
+        scen2 = os.path.join(chk.work, "c18_scen_%s_confirm.ndjson" % tag)
         with open(scen2, "w") as fh:
             for k, (sig, (nm, o, n)) in enumerate(sel):
                 fh.write(json.dumps({"id": "c%d-%d" % (k, n), "init": init_state, "steps": steps[n][:o["i"]]}) + "\n")
-        obs2_path = c18_recon_harness(chk, scen2, rec, pin, max(idle, 25), name + "_confirm%d" % attempt)
+        obs2_path = c18_recon_harness(chk, scen2, rec, pin, max(idle, 25), tag + "_confirm%d" % attempt, consumer)
         fails2, _ = c18_judge(chk, obs2_path, "w")
         obs2 = [json.loads(l) for l in open(obs2_path)]
         for f in fails2:
@@ -553,14 +564,14 @@ def c18_run_recon(chk, name, rec, pin, sample, idle):
             chk.notes.append("unreproduced: %s step %d %s" % (o["w"], o["i"], sig))
             continue
         chk.fail(sig, nm, detail={"observation": o, "walks_with_this_signature": len(bysig[sig])},
-                 scenario={"family": "config", "prop": "C18", "kind": "recon", "rec": rec, "pin": pin, "idle": max(idle, 25),
+                 scenario={"family": "config", "prop": "C18", "kind": "recon", "rec": rec, "pin": pin, "idle": max(idle, 25), "consumer": consumer,
                            "init": init_state, "steps": steps[n][:o["i"]]})
 
 
 def c18_run(chk):
     c18_run_load(chk)
-    for name, rec, pin, sample, idle in C18_RECON[chk.tier]:
-        c18_run_recon(chk, name, rec, pin, sample, idle)
+    for name, rec, pin, sample, idle, consumer in C18_RECON[chk.tier]:
+        c18_run_recon(chk, name, rec, pin, sample, idle, consumer)
     chk.cov["exhaustive"] = chk.tier == "thorough"
     chk.cov["rule"] = ("load: TLC enumerates snapshots with 0..MaxN objects of every kind (count vectors: all kinds equal, or one "
                        "kind at 3/MaxN with the others at 0..2) x pinning modes x advertisement modes x rejected variants; the real "
@@ -600,7 +611,7 @@ def c18_replay(chk, body):
     scen = os.path.join(chk.work, "c18_scen_replay.ndjson")
     vlib.write_scenarios(scen, [sc["steps"]], sc["init"], prefix="replay-")
     for attempt in range(5):
-        obs_path = c18_recon_harness(chk, scen, sc["rec"], sc["pin"], sc["idle"], "replay%d" % attempt)
+        obs_path = c18_recon_harness(chk, scen, sc["rec"], sc["pin"], sc["idle"], "replay%d" % attempt, sc.get("consumer", "record"))
         fails, nlines = c18_judge(chk, obs_path, "w")
         obs = [json.loads(l) for l in open(obs_path)]
         if fails:
